@@ -399,6 +399,18 @@ def jsonable(o):
 CASE_LOOP_BUDGET = {True: 4_000_000, False: 60_000_000}      # quick / thorough: while-header executions inside the package per case
 
 
+def poison_allocator(value):
+    """fill NumPy's small-block free lists with `value` (allocate and release arrays of every small size): a buffer obtained with
+    np.empty and not fully written then carries this garbage instead of whatever the previous call happened to leave behind"""
+    import numpy as np
+    for size in list(range(1, 65)) + [96, 128, 256, 512, 1024]:
+        a = np.full(size, value, dtype=float)
+        del a
+    for size in (2, 3, 4, 6, 8, 12, 16, 24, 32, 48, 64):
+        a = np.full((size, 2), value, dtype=float)
+        del a
+
+
 def _copy_arg(x):
     import numpy as np
     if isinstance(x, np.ndarray):
@@ -441,6 +453,7 @@ def safe_case(fn):
                 j = ctx.pool_rng.randrange(ctx.pool_seen)
                 if j < ctx.pool_cap:
                     ctx.pool[j] = (wrapper, tuple(_copy_arg(x) for x in a), {kk: _copy_arg(v) for kk, v in k.items()})
+        poison_allocator(float('nan') if ctx.phase == 'main' else 1e300)
         try:
             # every case runs under a loop guard: no `while` loop of the package may spin for ever inside a check, whichever function it is in
             # (once loops have been found spinning in this run the budget shrinks, so that a non-terminating change is reported in seconds)
